@@ -36,7 +36,9 @@ def strategy():
   from hypothesis import strategies as st
   fault = st.one_of(
       st.sampled_from([0, 0, 0, 1, 3, -1, -2, -5]),
-      st.sampled_from(EXC_NAMES).map(lambda n: 'raise:' + n))
+      st.sampled_from(EXC_NAMES).map(lambda n: 'raise:' + n),
+      st.sampled_from(['ValueError', 'KeyError', 'RpcError']).map(
+          lambda n: 'factory:' + n))
   esf = st.one_of(st.sampled_from(['ok:False', 'ok:True', 'ok:False']),
                   st.sampled_from(EXC_NAMES).map(lambda n: 'raise:' + n))
   worker = st.sampled_from(['w1', 'w1', 'w2'])
@@ -182,6 +184,8 @@ def check(case):
         is_exc = isinstance(spec, str)
         if invoked and is_exc:
           out.cls('suggest_exception', 'exc_' + spec.split(':')[1])
+          if spec.startswith('factory:'):
+            out.cls('policy_factory_exception')
           fault_by[worker] = True
           if reported is None:
             out.violate('not_reported/suggest_exception',
@@ -280,6 +284,7 @@ def families(tier):
                   budget={'quick': 1000, 'thorough': 24000},
                   shards={'quick': 16, 'thorough': 16},
                   required_classes=('suggest_exception', 'short_delivery',
+                                    'policy_factory_exception',
                                     'early_stop_exception', 'local',
                                     'distributed', 'ram', 'sqlmem',
                                     'fault_then_same_worker_suggest')),
